@@ -24,7 +24,7 @@ from coqbridge import fl
 
 PROP = "C02"
 THEOREM_FILE = "Props/C02.v"
-CHECKER = "Corr.C02"
+CHECKER = "Corr.C02All"
 SHARD = 6
 RULE = ("sample3D / sample3DUV on generated arrays (positions on cell centres, edges, corners, dyadic k/256 and "
         "general floats, weights 0, 1, dyadic, general) and real Grid+Forcing on generated files (variable "
@@ -60,6 +60,10 @@ def gen_cases(ctx):
     for n in range(nuv):
         out.append({"k": "uv", "seed": rng.randrange(10**9), "meth": rng.choice([0, 0, 0, 1]), "exact": n % 2 == 0,
                     "N": rng.randint(2, 4), "jmax": rng.randint(2, 6), "imax": rng.randint(2, 7), "P": 12})
+    import c02_float
+
+    for fdesc in c02_float.gen_float_cases(rng, 60 if ctx.quick else 1500):
+        out.append({"k": "fbits", "f": fdesc})
     # storage is chosen per file: a packed file followed by a float file, float -> packed, packed -> packed with
     # other factors, ...; with two files the observed frame belongs to the later one
     combos = [["f8"], ["i2", "f8"], ["i2", "i2"], ["f4"], ["f4", "i2"], ["i2", "f4"], ["i2"], ["f8", "f4"], ["i2", "i2"],
@@ -595,6 +599,15 @@ def eval_file(desc, ctx):
 
 
 def eval_case(desc, ctx):
+    if desc["k"] == "fbits":
+        # the floating-point model of the kernel: the compiled trilinear on eight node values in general position,
+        # compared BIT FOR BIT with Model/TrilinearFloat.v (leading 9: Corr/C02All dispatches to Corr/C02F), and an
+        # independent exact-rational oracle for the proved error bound 11 u M + 7 eta and the min/max clause
+        import c02_float
+
+        r = c02_float.eval_float_case(desc["f"])
+        r["ints"] = [9] + [int(x) for x in r["ints"]]
+        return r
     if desc["k"] == "s3d":
         return eval_s3d(desc)
     if desc["k"] == "uv":
